@@ -65,6 +65,10 @@ func convCompFuncV1ToV2(cf *ugo.CompiledFunction, opWidth []int) error {
 
 	for i := 0; i < len(cf.Instructions); {
 		op := cf.Instructions[i]
+		if int(op) >= len(opWidth) {
+			return fmt.Errorf("unknown opcode %d at %d", op, i)
+		}
+
 		w := opWidth[op]
 
 		for j := 0; j <= w && i+j < len(cf.Instructions); j++ {
@@ -102,6 +106,9 @@ func convCompFuncV1ToV2(cf *ugo.CompiledFunction, opWidth []int) error {
 		}
 
 		w := opWidth[op]
+		if i+1+w > len(cf.Instructions) {
+			return fmt.Errorf("truncated operands of opcode %d at %d", op, i)
+		}
 
 		switch op {
 		case opv1.OpJump, opv1.OpJumpFalsy, opv1.OpAndJump, opv1.OpOrJump, opv1.OpSetupTry:
